@@ -143,6 +143,13 @@ func (x *Exec) modTargets(env *Env, item string) ([]modTarget, error) {
 		}
 		return nil, fmt.Errorf("all(%s): no such field", inner)
 	}
+	if strings.HasPrefix(item, "allcells(") && strings.HasSuffix(item, ")") {
+		ty, err := x.prog.LookupType(item[9:len(item)-1], env.pkg)
+		if err != nil {
+			return nil, err
+		}
+		return x.cellTargets(ty, nil), nil
+	}
 	if strings.HasPrefix(item, "allelems(") && strings.HasSuffix(item, ")") {
 		ty, err := x.prog.LookupType(item[9:len(item)-1], env.pkg)
 		if err != nil {
@@ -228,6 +235,10 @@ func (x *Exec) modTargets(env *Env, item string) ([]modTarget, error) {
 			r = xv.S[1]
 		} else {
 			r = xv.One()
+		}
+		if gv.T == nil && gv.GT != nil {
+			// array-valued ghost field: the whole array of this object
+			return []modTarget{{Comp: ghostFieldComp(owner, sel.Name[1:], ""), So: ArrSort(SInt, gv.S[0].So), Ref: &r}}, nil
 		}
 		for i, sl := range x.u.Layout(gv.T) {
 			_ = i
@@ -328,6 +339,28 @@ func (x *Exec) assumeCompRange(comp string, v Term) {
 }
 
 func (x *Exec) havocModifies(env *Env, st *State, fc *FuncContract) error {
+	// "preserves": materialise the current value of those components so that a full havoc keeps them
+	keep := map[string]Term{}
+	for _, it := range fc.Preserves {
+		ts, err := x.modTargets(env, it)
+		if err != nil {
+			return fmt.Errorf("preserves %s: %v", it, err)
+		}
+		for _, t := range ts {
+			if t.All {
+				continue
+			}
+			if t.Ref != nil {
+				return fmt.Errorf("preserves %s: only whole components (all(T.f)) can be preserved", it)
+			}
+			keep[t.Comp] = x.u.comp(st, t.Comp, t.So)
+		}
+	}
+	defer func() {
+		for k, v := range keep {
+			st.Heap[k] = v
+		}
+	}()
 	var all []modTarget
 	for _, it := range fc.Modifies {
 		ts, err := x.modTargets(env, it)
@@ -415,6 +448,10 @@ func VerifyFunction(prog *Program, cs *Contracts, fn *ssa.Function, fc *FuncCont
 		return
 	}
 	letVals := env.names
+	x.topLets = map[string]Val{}
+	for _, l := range fc.Lets {
+		x.topLets[l.Name] = env.names[l.Name]
+	}
 	for _, c := range fc.Requires {
 		g, err := env.Bool(c.E)
 		if err != nil {
